@@ -525,17 +525,16 @@ def oracle_accept_order(P):
 
 
 def oracle_calls(P):
-    """C13: each successful connect()/accept() owns exactly one table entry at the time it resolves; a connect()
-    beyond the limit fails with TooManyActiveConnections instead of evicting."""
+    """C10/C13: the accept service survives whatever arrives: on a live socket (the harness never shuts it down) a
+    pending accept() is never failed - it waits or returns a connection."""
     def orc(case, impl):
         tr = SockTrace(case, impl)
         hits = []
-        resolved_ok = 0
         for st in tr.steps:
-            if st["op"] == "new":
-                resolved_ok = 0
-            if st["op"] in ("pollconn", "pollacc") and st["head"] == "ok":
-                resolved_ok += 1
+            if st["op"] == "pollacc" and st["head"].startswith("err"):
+                hits.append({"sig": {"oracle": "sock_calls", "what": "accept_failed_on_live_socket"},
+                             "text": f"`{st['line']}` -> {st['head']}: a pending accept() call failed although the socket is alive (the dispatcher dropped the call instead of keeping it for the next connection request)"})
+                break
         return hits
     return orc
 
@@ -584,7 +583,7 @@ def directed_race(P):
 def register(P):
     P.GENERATORS["sock"] = gen_sock(P)
     P.STATS["sock"] = stats_sock
-    for o in ("sock_tables", "accept_order"):
+    for o in ("sock_tables", "accept_order", "sock_calls"):
         P.ORACLE_COMPONENT[o] = "sock"
     common_trust = ["model of socket.rs Dispatcher (Model/Sock.lean) - validated by the lockstep differential: branch taken, datagrams sent (SYN, RESET), results of every connect()/accept() call, and the tables after every operation (streams, connecting slots, SYN backlog, acceptor queue, next connection id)",
                     "the world around the dispatcher in lockstep runs (tokio mpsc/oneshot semantics: FIFO, bounded acceptor channel with FIFO permit hand-over, a dropped receiver makes send fail) is modelled in the Lean driver and validated by the same differential, not proved",
@@ -602,7 +601,7 @@ def register(P):
     P.PROPS["C13"] = {
         "lean": ["UtpVerif.Props.C13"],
         "components": ["sock"],
-        "oracles": {"sock_tables": oracle_tables(P), "accept_order": oracle_accept_order(P)},
+        "oracles": {"sock_tables": oracle_tables(P), "accept_order": oracle_accept_order(P), "sock_calls": oracle_calls(P)},
         "directed": {"race": directed_race(P)},
         "rule": rule, "assumptions": common_assume, "trusted": common_trust,
     }
@@ -613,6 +612,7 @@ def register_late(P):
     accept/connect service or another connection) is judged on the dispatcher lockstep too"""
     P.PROPS["C10"]["components"].append("sock")
     P.PROPS["C10"]["oracles"]["sock_tables"] = oracle_tables(P)
+    P.PROPS["C10"]["oracles"]["sock_calls"] = oracle_calls(P)
     # C11 "every emitted datagram carries the connection id owed to that direction": the dispatcher's own datagrams
     # (SYN, RESET) are compared byte for byte in the sock lockstep, the connection's in the vs lockstep
     for comp in ("sock", "vsock"):
